@@ -335,4 +335,87 @@ def handlers(emit, repo):
             os.chdir(cwd)
             shutil.rmtree(scratch, ignore_errors=True)
 
-    return {"revdfs": job_revdfs, "malformed": job_malformed, "batch": job_batch, "roborta": job_roborta}
+    def pval(x):
+        return float("nan") if x["k"] == "nan" else x["n"] / x["d"]
+
+    def board_obs(moves, rewards, loose):
+        def grid(m):
+            return [[int(v) if isinstance(v, (int, float)) and not isinstance(v, bool) and v == int(v) else -999
+                     for v in row] for row in m]
+        return {"moves": grid(moves), "rewards": grid(rewards), "loose": grid(loose)}
+
+    def parse_depiction(path):
+        """The board as depicted in the comment at the head of a generated file."""
+        import re
+        syn = {"<-": 0, "<>": 1, "->": 2, "v": 3}
+        moves, rewards, loose = [], [], []
+        with open(path) as f:
+            for line in f:
+                if not line.startswith("#"):
+                    break
+                tiles = re.findall(r"\[(\d+)\|(<-|<>|->|v)\((.)\)\]", line)
+                if tiles:
+                    rewards.append([int(t[0]) for t in tiles])
+                    moves.append([syn[t[1]] for t in tiles])
+                    loose.append([1 if t[2] == "X" else 0 for t in tiles])
+        return {"moves": moves, "rewards": rewards, "loose": loose}
+
+    def job_generator(job):
+        import shutil
+        import subprocess
+        import tempfile
+        rg = _fresh("roberta_generator")
+        cr = _fresh("conditionalrewards")
+        scratch = tempfile.mkdtemp(prefix="verif_gen_")
+        os.makedirs(os.path.join(scratch, "inputs"))
+        cwd = os.getcwd()
+        try:
+            os.chdir(scratch)
+            for op in job["ops"]:
+                p = op["p"]
+                if op["e"] == "Check":
+                    try:
+                        rg.check_input(p["seed"], p["width"], p["length"], pval(p["rb"]), pval(p["lb"]),
+                                       pval(p["lt"]), pval(p["tb"]), p["maxr"])
+                        emit({"e": "Check", "p": p, "ok": True, "etype": ""})
+                    except Exception as exc:
+                        emit({"e": "Check", "p": p, "ok": False, "etype": type(exc).__name__})
+                elif op["e"] in ("GenCall", "Freq"):
+                    try:
+                        m, r, lo = rg.gen_rnd_board(p["seed"], p["length"], p["width"], pval(p["lt"]), p["maxr"], p["fd"])
+                        emit({"e": op["e"], "p": p, "ok": True, "etype": "", "board": board_obs(m, r, lo)})
+                    except Exception as exc:
+                        emit({"e": op["e"], "p": p, "ok": False, "etype": type(exc).__name__,
+                              "board": {"moves": [], "rewards": [], "loose": []}})
+                elif op["e"] == "Main":
+                    # every run of the command line gets a directory of its own
+                    shutil.rmtree(os.path.join(scratch, "inputs"), ignore_errors=True)
+                    os.makedirs(os.path.join(scratch, "inputs"))
+                    before = listing(scratch)
+                    args = [sys.executable, os.path.join(repo, "roberta_generator.py"),
+                            "--seed", str(p["seed"]), "--width", str(p["width"]), "--length", str(p["length"]),
+                            "--max_reward", str(p["maxr"]), "-p", repr(pval(p["rb"])), "-q", repr(pval(p["lb"])),
+                            "-r", repr(pval(p["tb"])), "-t", repr(pval(p["lt"]))] + (["--force_down"] if p["fd"] else [])
+                    pr = subprocess.run(args, cwd=scratch, stdout=subprocess.DEVNULL, stderr=subprocess.PIPE,
+                                        timeout=200, env=dict(os.environ, PYTHONDONTWRITEBYTECODE="1"))
+                    after = listing(scratch)
+                    etype = ""
+                    if pr.returncode != 0:
+                        lines = [x for x in pr.stderr.decode(errors="replace").strip().split("\n") if x.strip()]
+                        etype = lines[-1].split(":")[0].strip()[:60] if lines else "unknown"
+                    new = sorted(set(after) - set(before))
+                    keys, board = [], {"moves": [], "rewards": [], "loose": []}
+                    if pr.returncode == 0 and len(new) == 1:
+                        try:
+                            keys = [str(k) for k in cr.read_dict_from_file(new[0]).keys()]
+                        except Exception as exc:
+                            keys = ["<" + type(exc).__name__ + ">"]
+                        board = parse_depiction(new[0])
+                    emit({"e": "Main", "p": p, "rc": pr.returncode, "etype": etype, "before": before,
+                          "after": after, "keys": keys, "board": board})
+        finally:
+            os.chdir(cwd)
+            shutil.rmtree(scratch, ignore_errors=True)
+
+    return {"revdfs": job_revdfs, "malformed": job_malformed, "batch": job_batch, "roborta": job_roborta,
+            "generator": job_generator}
